@@ -166,8 +166,9 @@ def main():
         'exhaustive': False,
     }
     wall = time.time() - t0
-    common.write_evidence(prop, args.tier, seed, coverage, list(getattr(mod, 'ASSUMPTIONS', [])), wall,
-                          len(violations))
+    if not args.no_build:   # a debugging run without build/audit is not evidence
+        common.write_evidence(prop, args.tier, seed, coverage, list(getattr(mod, 'ASSUMPTIONS', [])), wall,
+                              len(violations))
     for f in result['known_lines']:
         print('KNOWN-FINDING: property=%s %s' % (prop, f))
     print('%s %s seed=%d: %d theorems audited, %d cases (%d distinct non-trivial), %d compared with the model, '
